@@ -326,6 +326,13 @@ func (g *Registry) validate(rec *Record, r *http.Request, body []byte) {
 	}
 	g.mu.Lock()
 	issued := g.links[r.URL.Path+"?"+r.URL.RawQuery]
+	if !issued && q.Has("n") {
+		// a client may add its page size to a pagination URL it was handed
+		// (oras-go sets n= on every page request); the rest must be as issued
+		q2 := r.URL.Query()
+		q2.Del("n")
+		issued = g.links[r.URL.Path+"?"+q2.Encode()]
+	}
 	g.mu.Unlock()
 	onlyKeys := func(allowed ...string) {
 		if issued {
@@ -426,6 +433,10 @@ func (g *Registry) validate(rec *Record, r *http.Request, body []byte) {
 					rec.bad("unexpected query parameter %q on upload PUT", k)
 				}
 			}
+			// the Location handed out is opaque: its own parameters must come back
+			if ok && uploadHasState(rec.Ref) && q.Get("_state") != "s"+rec.Ref {
+				rec.bad("upload PUT lost the Location's _state parameter (got %q)", q.Get("_state"))
+			}
 			if ct := r.Header.Get("Content-Type"); ct != "application/octet-stream" {
 				rec.bad("upload PUT Content-Type %q", ct)
 			}
@@ -453,7 +464,15 @@ func (g *Registry) validate(rec *Record, r *http.Request, body []byte) {
 		if !validDigest(rec.Ref) {
 			rec.bad("referrers reference %q is not a digest", rec.Ref)
 		}
-		onlyKeys("artifactType")
+		// n= is not defined for this endpoint by the specification; oras-go
+		// sends it only when the caller opts in (ReferrerListPageSize) and a
+		// registry ignores unknown parameters, so it is tolerated when numeric.
+		onlyKeys("artifactType", "n")
+		if n := q.Get("n"); q.Has("n") {
+			if v, err := strconv.Atoi(n); err != nil || v < 0 {
+				rec.bad("n=%q", n)
+			}
+		}
 	}
 }
 
@@ -751,6 +770,13 @@ func (g *Registry) handle(rec *Record, r *http.Request, body []byte) *Response {
 	return status(405, "UNSUPPORTED")
 }
 
+// uploadHasState reports whether the Location issued for an upload session
+// carried a _state parameter (every second session, see the POST handler).
+func uploadHasState(id string) bool {
+	n, err := strconv.Atoi(strings.TrimPrefix(id, "u"))
+	return err == nil && n%2 == 0
+}
+
 func isForeign(mt string) bool {
 	switch mt {
 	case "application/vnd.oci.image.layer.nondistributable.v1.tar", "application/vnd.oci.image.layer.nondistributable.v1.tar+gzip",
@@ -867,7 +893,13 @@ func (g *Registry) setLink(h http.Header, r *http.Request, path string, q url.Va
 		link = fmt.Sprintf("<%s://%s%s>; rel=\"next\"", scheme, r.Host, target)
 	case 2:
 		// relative to the request path's directory
-		link = fmt.Sprintf("<%s>; rel=\"next\"", path[strings.LastIndex(path, "/")+1:]+"?"+q.Encode())
+		seg := path[strings.LastIndex(path, "/")+1:]
+		if strings.Contains(seg, ":") {
+			// RFC 3986 §4.2: a first segment containing a colon (a digest) would
+			// read as a scheme; it must be preceded by a dot-segment
+			seg = "./" + seg
+		}
+		link = fmt.Sprintf("<%s>; rel=\"next\"", seg+"?"+q.Encode())
 	case 4:
 		link = fmt.Sprintf("<%s>; rel=next", target)
 	default:
